@@ -103,7 +103,7 @@ theorem wellSeg_of (P : Params) (tail : Str) (htq : Quiet P sTrowd tail [] ∧ Q
     ∀ (segs : List Seg), (∀ s ∈ segs, QuietGap P s.1 ∧ RowOk s.2) → (∀ s ∈ segs.tail, StartsNl s.1) → WellSeg P segs tail
   | [], _, _ => htq
   | s :: segs, h1, h2 => by
-    refine ⟨(h1 s List.mem_cons_self).1, (h1 s List.mem_cons_self).2, startsNl_body2 segs tail h2 htn, ?_⟩
+    refine ⟨(h1 s List.mem_cons_self).1, (h1 s List.mem_cons_self).2, startsNW_of_nl P (startsNl_body2 segs tail h2 htn), ?_⟩
     exact wellSeg_of P tail htq htn segs (fun x hx => h1 x (List.mem_cons_of_mem _ hx))
       (fun x hx => h2 x (List.mem_of_mem_tail hx))
 
